@@ -70,7 +70,9 @@ var addCmd = &cobra.Command{
 			return errors.New("nothing specified, nothing added")
 		}
 		for _, arg := range args {
-			if _, err := os.Stat(arg); err != nil {
+			// the path is looked up on disk under the same (cleaned) name as in the index:
+			// "file/" names the existing file, it is not a deleted path
+			if _, err := os.Stat(filepath.Clean(arg)); err != nil {
 				// If the file does not exist but is registered in the index, delete it from the index
 				// but not delete here, just check it
 				cleanedArg := filepath.Clean(arg)
@@ -91,7 +93,7 @@ var addCmd = &cobra.Command{
 			}
 
 			// If the file does not exist but is registered in the index, delete it from the index
-			if _, err := os.Stat(arg); err != nil {
+			if _, err := os.Stat(filepath.Clean(arg)); err != nil {
 				_, _, isEntryFound := client.Idx.GetEntry([]byte(cleanedArg))
 				if !isEntryFound {
 					return fmt.Errorf(`path "%s" did not match any files`, arg)
@@ -108,7 +110,7 @@ var addCmd = &cobra.Command{
 			}
 
 			// directory
-			if f, err := os.Stat(arg); err == nil && f.IsDir() {
+			if f, err := os.Stat(filepath.Clean(arg)); err == nil && f.IsDir() {
 				filePaths, err := file.GetFilePathsUnderDirectory(path)
 				if err != nil {
 					return fmt.Errorf("fail to get file path under directory: %w", err)
